@@ -10,6 +10,11 @@ driven in-process (harness/h1_c17_driver.c) with a scripted clock and scripted v
 (getrusage, /proc/self/statm, sched_getcpu, three watched globals, asynchronous events, up to
 three threads), against the Lean model `C17`; monitors evaluate the property itself on the
 implementation's record stream; an ASan build of the same harness looks for memory errors.
+Class `filters`: -F / -N / -D option sets combined with -t, watchpoints and read triggers, mostly with
+cygprof hooks, so that frames that are not recorded sit below, between and above recorded ones (rstack
+index != record depth); the monitor `watch_iff_change` evaluates "a watch event is recorded exactly when
+the watched value changed" on the implementation's stream under these filters (Lean:
+c17_dropped_with_call_filtered, c17_dropped_keeps_callers_events).
 
 Five behaviours of the anchored code have a repaired and an as-coded variant in the model
 (`fixarg`, `fixvar`, `fixidx`, `fixpair`; S6 is a pure memory-safety defect seen by the ASan run).  The
@@ -75,7 +80,7 @@ def new_trig():
 
 
 def new_cfg():
-    return {"threshold": None, "trig": {}, "watch": [], "max_stack": None}
+    return {"threshold": None, "trig": {}, "watch": [], "max_stack": None, "F": [], "N": [], "D": None}
 
 
 def norm_cfg(cfg):
@@ -84,7 +89,14 @@ def norm_cfg(cfg):
     cfg.setdefault("threshold", None)
     cfg.setdefault("watch", [])
     cfg.setdefault("max_stack", None)
+    cfg.setdefault("F", [])           # -F: opt-in functions
+    cfg.setdefault("N", [])           # -N: opt-out functions
+    cfg.setdefault("D", None)         # -D: depth
     return cfg
+
+
+def has_filters(cfg):
+    return bool(cfg.get("F") or cfg.get("N") or cfg.get("D") is not None)
 
 
 def to_env(cfg, fill=0):
@@ -118,6 +130,11 @@ def to_env(cfg, fill=0):
         env["UFTRACE_WATCH"] = ";".join("cpu" if w == "cpu" else "var:" + VAR_NAMES[w] for w in cfg["watch"])
     if cfg["max_stack"] is not None:
         env["UFTRACE_MAX_STACK"] = str(cfg["max_stack"])
+    filt = ["^%s$" % fname(f) for f in cfg.get("F", [])] + ["!^%s$" % fname(f) for f in cfg.get("N", [])]
+    if filt:
+        env["UFTRACE_FILTER"] = ";".join(filt)
+    if cfg.get("D") is not None:
+        env["UFTRACE_DEPTH"] = str(cfg["D"])
     return env
 
 
@@ -133,14 +150,21 @@ def arg_size(t):
 
 def to_model(cfg, flags):
     wv = [w for w in cfg["watch"] if w != "cpu"]
-    line = "CFG maxstack=%d depth=1024 threshold=%d watchcpu=%d pagekb=%d fixarg=%d fixvar=%d fixidx=%d fixpair=%d" % (
-        cfg["max_stack"] if cfg["max_stack"] is not None else 1024, cfg["threshold"] or 0,
+    line = "CFG maxstack=%d depth=%d optin=%d threshold=%d watchcpu=%d pagekb=%d fixarg=%d fixvar=%d fixidx=%d fixpair=%d" % (
+        cfg["max_stack"] if cfg["max_stack"] is not None else 1024,
+        cfg["D"] if cfg.get("D") is not None else 1024, 1 if cfg.get("F") else 0, cfg["threshold"] or 0,
         1 if "cpu" in cfg["watch"] else 0, PAGEKB, flags[0], flags[1], flags[2], flags[3])
     if wv:
         line += " vars=" + ",".join(str(k) for k in wv)
     out = [line]
-    for fn, t in sorted(cfg["trig"].items()):
+    fns = sorted(set(cfg["trig"]) | set(cfg.get("F", [])) | set(cfg.get("N", [])))
+    for fn in fns:
+        t = cfg["trig"].get(fn) or new_trig()
         items = []
+        if fn in cfg.get("F", []):
+            items.append("filter=in")
+        elif fn in cfg.get("N", []):
+            items.append("filter=out")
         if t["time"] is not None:
             items.append("time=%d" % t["time"])
         if t["trace"]:
@@ -181,12 +205,54 @@ def rand_cfg(rng, clean=False):
     return c
 
 
+def rand_filter_cfg(rng):
+    """filters x events: -F / -N / -D option sets together with -t and watchpoints / read triggers, so that
+    frames that are not recorded (NORECORD: outside the -F region, the -N function, beyond -D) sit on the
+    return stack below and above recorded ones (cygprof hooks push a frame for every call; the -pg hook
+    only for a call whose trigger changes the filter state): the rstack index of a frame then differs from
+    its record depth"""
+    c = new_cfg()
+    c["threshold"] = rng.choice([8, 15, 15, 40])
+    fns = list(range(NF))
+    r = rng.random()
+    if r < 0.8:
+        c["F"] = rng.sample(fns[1:], rng.choice([1, 1, 2, 3]))
+    if rng.random() < (0.35 if c["F"] else 0.9):
+        c["N"] = [f for f in rng.sample(fns[1:], rng.choice([1, 1, 2])) if f not in c["F"]]
+    if rng.random() < 0.4:
+        c["D"] = rng.randint(1, 4)
+    for fn in rng.sample(fns, rng.randint(0, 3)):
+        t = new_trig()
+        t["read"] = rng.choice([0, 1, 2, 3])
+        if rng.random() < 0.15:
+            t["trace"] = True
+        if rng.random() < 0.15:
+            t["time"] = rng.choice([5, 12, 30])
+        if rng.random() < 0.2:
+            t["arg"] = rng.choice([8, 16, 100])
+        if rng.random() < 0.2:
+            t["ret"] = True
+        c["trig"][fn] = t
+    w = []
+    if rng.random() < 0.75:
+        w.append("cpu")
+    w += rng.sample([0, 1, 2], rng.choice([0, 1, 1, 2]))
+    if not w:
+        w = ["cpu"]
+    rng.shuffle(w)
+    c["watch"] = w
+    return c
+
+
 def needs_probe(cfg, fn):
     t = cfg["trig"].get(fn)
     return bool(t and t["read"] and (t["arg"] is not None or t["ret"]))
 
 
-def gen_script(rng, cfg, nthreads=1, clean=False, max_calls=14, max_depth=5, asyncs=False, kind="pg"):
+def gen_script(rng, cfg, nthreads=1, clean=False, max_calls=14, max_depth=5, asyncs=False, kind="pg", gaps=None,
+               change=1.0):
+    """`gaps`: the clock steps between hooks (default: the class's own); `change`: factor on the rate at which
+    the cpu / the watched variables change between hooks"""
     ops = []
     src = {"ru": [rng.randrange(50), rng.randrange(5000)], "sm": [rng.randrange(1000, 9000) for _ in range(3)],
            "cpu": rng.randrange(4), "vars": [0, 0, 0]}
@@ -198,7 +264,8 @@ def gen_script(rng, cfg, nthreads=1, clean=False, max_calls=14, max_depth=5, asy
         if rng.random() < 0.5:
             src["vars"][k] = rng.choice(vals[k])
             ops.append("V %d %x" % (k, src["vars"][k]))
-    gaps = [2, 3, 5, 10, 30] if clean else [0, 1, 1, 2, 2, 3, 5, 10, 30]
+    if gaps is None:
+        gaps = [2, 3, 5, 10, 30] if clean else [0, 1, 1, 2, 2, 3, 5, 10, 30]
     now = 1000
     stacks = [[] for _ in range(nthreads)]
     started = [False] * nthreads
@@ -236,11 +303,11 @@ def gen_script(rng, cfg, nthreads=1, clean=False, max_calls=14, max_depth=5, asy
         if rng.random() < 0.4:
             src["sm"] = [max(0, v + rng.choice([-20, 0, 0, 3, 64])) for v in src["sm"]]
             ops.append("SM %d %d %d" % tuple(src["sm"]))
-        if rng.random() < 0.3:
+        if rng.random() < 0.3 * change:
             src["cpu"] = rng.randrange(4)
             ops.append("CPU %d" % src["cpu"])
         for k in range(3):
-            if rng.random() < 0.25:
+            if rng.random() < 0.25 * change:
                 src["vars"][k] = rng.choice(vals[k])
                 ops.append("V %d %x" % (k, src["vars"][k]))
         if asyncs and started[th] and rng.random() < 0.1:
@@ -371,6 +438,8 @@ def spec_stream(cfg, script):
     need more than MAX_EVENT pending watch events)."""
     hooks, calls, has_async = parse_hooks(script)
     if has_async or cfg["threshold"] or any(t["time"] is not None for t in cfg["trig"].values()):
+        return None
+    if has_filters(cfg):
         return None
     if any(h["th"] != 0 for h in hooks) or not hooks:
         return None
@@ -593,6 +662,119 @@ def monitors(cfg, script, per_thread):
                                                         c["t0"], c["t1"])), "dropped_with_call"
     return None, None
 
+# ---- filters: which calls are inside the filters (documented semantics of -F / -N / -D) ---------
+def in_filter(cfg, calls):
+    """call id -> True when the call is one the filters select (DESIGN Appendix D, restricted to -F / -N / -D):
+    nothing inside a -N region; with -F only calls inside a -F function; at most D nested selected calls,
+    counted from the innermost -F function.  Only such calls have a recorded frame, and only their hooks
+    look at the watched values."""
+    F, N = set(cfg.get("F") or []), set(cfg.get("N") or [])
+    D = cfg.get("D") if cfg.get("D") is not None else 1024
+    vis = {}
+
+    def walk(c, inc, outc, budget):
+        if outc > 0:
+            v = False
+        else:
+            if c["fn"] in F:
+                inc, budget = inc + 1, D
+            elif c["fn"] in N:
+                outc += 1
+            v = outc == 0 and (not F or inc > 0) and budget > 0
+            if v:
+                budget -= 1
+        vis[c["id"]] = v
+        for k in c["kids"]:
+            walk(k, inc, outc, budget)
+    for c in calls:
+        if c["parent"] is None:
+            walk(c, 0, 0, D)
+    return vis
+
+
+def norecord_below_recorded(cfg, script):
+    """does the history put a selected call above a cygprof frame of a call the filters reject?"""
+    hooks, calls, _ = parse_hooks(script)
+    vis = in_filter(cfg, calls)
+    byid = {c["id"]: c for c in calls}
+    for c in calls:
+        if not vis[c["id"]]:
+            continue
+        p = c["parent"]
+        while p is not None:
+            if not vis[p] and byid[p]["kind"] == "cyg":
+                return True
+            p = byid[p]["parent"]
+    return False
+
+
+def watch_monitor(cfg, script, per_thread, impl):
+    """`a watch event is recorded exactly when the watched value changed`, for one thread, hooks at least
+    3 ns apart, no asynchronous events, any -F / -N / -D / -t: going through the hooks of the calls the
+    filters select (the only ones that observe), a hook whose observation differs from the previous one
+    (the first observation always) owes one event per changed source, stamped hook time - 1 (+ 1 for the
+    first observation); the event must be in the stream if the ENTRY of the hook's call is (a call the time
+    filter drops takes its events with it: `dropped_with_call` in monitors()), and the stream holds no
+    other watch event.  Stops (None) where more than MAX_EVENT events could be pending."""
+    hooks, calls, has_async = parse_hooks(script)
+    if has_async or not cfg["watch"] or cfg.get("max_stack") is not None:
+        return None, None
+    if any(h["th"] != 0 for h in hooks) or not hooks:
+        return None, None
+    times = [h["t"] for h in hooks]
+    if not all(b - a >= 3 for a, b in zip(times, times[1:])):
+        return None, None
+    vis = in_filter(cfg, calls)
+    st = per_thread.get(0, [])
+    ent = {(int(t.split(":")[2]), int(t.split(":")[3])) for t in st if t.startswith("E:") and t.split(":")[2].isdigit()}
+    got = [t for t in st if t.startswith("V:%d:" % ID_CPU) or t.startswith("V:%d:" % ID_VAR)]
+    wrote = {}
+    for k, l in enumerate(impl):
+        m = re.search(r"recs=(.*)$", l)
+        wrote[k] = bool(m and m.group(1).strip() != "-")
+    wv = [w for w in cfg["watch"] if w != "cpu"]
+    inited = False
+    prev_cpu = None
+    prev = [hooks[0]["vars"][k] for k in wv]
+    pending = 0
+    owed, allowed = [], set()
+    for h in hooks:
+        c = h["call"]
+        w = []
+        if vis[c["id"]]:
+            first = not inited
+            wt = h["t"] + 1 if first else h["t"] - 1
+            if "cpu" in cfg["watch"]:
+                if first or h["cpu"] != prev_cpu:
+                    w.append(ev_tok(ID_CPU, wt, h["cpu"]))
+                prev_cpu = h["cpu"]
+            for pos, k in enumerate(wv):
+                if h["vars"][k] != prev[pos]:
+                    w.append(ev_tok(ID_VAR, wt, (pos, VAR_SIZES[k], h["vars"][k])))
+                    prev[pos] = h["vars"][k]
+            inited = True
+            pending += len(w)
+            if pending > 4:
+                break
+            for tok in w:
+                allowed.add(tok)
+                if (c["fn"], c["t0"]) in ent:
+                    owed.append((tok, h))
+        if wrote.get(h["i"]):
+            pending = len(w) if h["typ"] == "E" else 0      # an exit record flushes every older event
+    else:
+        for tok in got:
+            if tok not in allowed:
+                return ("watch event %s although the value did not change at that hook (or no selected call has a "
+                        "hook there)" % tok), "watch_iff_change"
+    for tok, h in owed:
+        if tok not in got:
+            c = h["call"]
+            return ("the %s hook of %s [%d..%s] (recorded: its ENTRY is in the stream) observed a new value, the watch "
+                    "event %s is not in the stream" % ("entry" if h["typ"] == "E" else "exit", fname(c["fn"]), c["t0"],
+                                                       c["t1"], tok)), "watch_iff_change"
+    return None, None
+
 
 # ---- builds -----------------------------------------------------------------------------------
 def build_asan(ctx):
@@ -750,6 +932,28 @@ def directed_cases():
           "T 1040", "E pg 3", "V 0 0", "T 1050", "X", "TH 1", "T 1060", "E pg 4", "T 1070", "X", "TH 0"])
     case("cygprof hooks with reads and return value", {"trig": {1: dict(both, ret=True)}, "watch": ["cpu"]},
          ["RU 1 2", "T 1000", "E cyg 0", "T 1005", "E cyg 1", "T 1010", "RU 3 4", "X", "T 1020", "X"])
+    # filtered stacks: frames that are not recorded below / between / above recorded ones
+    case("-F f2 -t 50, cygprof: pending watch event of a recorded caller above an unrecorded frame, short child",
+         {"watch": ["cpu"], "threshold": 50, "F": [2]},
+         ["CPU 3", "T 1000", "E cyg 1", "T 1010", "E cyg 2", "T 1020", "E cyg 3", "T 1025", "X", "T 1100", "X",
+          "T 1110", "X"])
+    case("-F f2 -t 50, cygprof: value changes at the entry of a recorded call, two short children",
+         {"watch": [0, "cpu"], "threshold": 50, "F": [2]},
+         ["CPU 3", "V 0 0", "T 1000", "E cyg 0", "T 1005", "E cyg 1", "T 1010", "E cyg 2", "T 1015", "X", "T 1020",
+          "CPU 1", "V 0 7", "E cyg 2", "T 1030", "E cyg 3", "T 1035", "X", "T 1040", "V 0 9", "E cyg 4", "T 1045", "X",
+          "T 1100", "X", "T 1110", "X", "T 1120", "X"])
+    case("-F f1 -F f3 -D 2 -t 30, cygprof: recorded, beyond the depth, recorded again (depth reset by -F)",
+         {"watch": ["cpu", 1], "threshold": 30, "F": [1, 3], "D": 2},
+         ["CPU 0", "T 1000", "E cyg 1", "T 1005", "E cyg 2", "T 1010", "E cyg 5", "T 1015", "CPU 2", "V 1 7", "E cyg 3",
+          "T 1020", "E cyg 4", "T 1025", "X", "T 1060", "X", "T 1065", "X", "T 1070", "X", "T 1075", "X"])
+    case("-N f2 -t 30, -pg: the -N function has an unrecorded frame above a recorded caller",
+         {"watch": ["cpu"], "threshold": 30, "N": [2]},
+         ["CPU 0", "T 1000", "E pg 1", "T 1005", "CPU 1", "E pg 2", "T 1010", "E pg 3", "T 1015", "X", "T 1020", "X",
+          "T 1025", "CPU 2", "E pg 3", "T 1030", "X", "T 1100", "X"])
+    case("-F f2, read events of a call outside the filter and of one inside", {"trig": {1: pf, 2: both}, "F": [2],
+                                                                                "threshold": 20},
+         ["RU 1 1", "SM 1 2 3", "T 1000", "E cyg 1", "T 1005", "RU 2 2", "E cyg 2", "T 1010", "E cyg 3", "T 1015", "X",
+          "T 1050", "RU 3 9", "SM 2 2 2", "X", "T 1060", "X"])
     return out
 
 
@@ -866,6 +1070,13 @@ def run(ctx):
         cases.append({"cfg": cfg, "class": "threads", "script": gen_script(
             rng, cfg, nthreads=rng.choice([2, 3]), max_calls=rng.choice([6, 12]), max_depth=3,
             asyncs=rng.random() < 0.2, kind=rng.choice(["pg", "mix"]))})
+    # filters x events (after the older classes: their random streams stay as they were)
+    n_filt = 80 if quick else 2500
+    for i in range(n_filt):
+        cfg = rand_filter_cfg(rng)
+        cases.append({"cfg": cfg, "class": "filters", "script": gen_script(
+            rng, cfg, clean=True, max_calls=rng.choice([6, 10, 16]), max_depth=rng.choice([3, 4, 6]),
+            kind=rng.choice(["cyg", "cyg", "cyg", "mix", "pg"]), gaps=[3, 3, 4, 5, 10, 30, 60], change=1.6)})
     t_build = ctx.elapsed()
     run_cases(ctx, exe, cases)
     t_cases = ctx.elapsed()
@@ -901,7 +1112,7 @@ def run(ctx):
                         "F17e": "c17_read_diff_paired / c17_prefix_unpaired_read_witness"}.get(fid)})
 
     # monitors on every case
-    spec_checked = spec_fail = 0
+    spec_checked = spec_fail = watch_checked = 0
     mon_by = {}
     for c in cases:
         per = stream_of(c["impl"], c["script"])
@@ -910,6 +1121,9 @@ def run(ctx):
             bad, which = c["impl"][0], "harness"
         if not bad:
             bad, which = monitors(c["cfg"], c["script"], per)
+        if not bad:
+            bad, which = watch_monitor(c["cfg"], c["script"], per, c["impl"])
+            watch_checked += which is None and bool(c["cfg"]["watch"])
         if not bad:
             exp = spec_stream(c["cfg"], c["script"])
             if exp is not None:
@@ -1066,7 +1280,8 @@ def run(ctx):
 
     dist = {"class": {}, "with_threshold": 0, "with_read": 0, "with_two_sources": 0, "with_arg": 0, "with_ret": 0,
             "read_and_arg_or_ret": 0, "watch_cpu": 0, "watch_var": 0, "async": 0, "threads>1": 0, "cyg_or_mix": 0,
-            "time_trigger": 0, "trace_trigger": 0, "unknown_probe_cases": 0}
+            "time_trigger": 0, "trace_trigger": 0, "unknown_probe_cases": 0, "with_-F": 0, "with_-N": 0, "with_-D": 0,
+            "filters_and_watch_and_threshold": 0, "unrecorded_frame_below_recorded (cases)": 0}
     for c in cases:
         cfg = c["cfg"]
         dist["class"][c["class"]] = dist["class"].get(c["class"], 0) + 1
@@ -1084,6 +1299,12 @@ def run(ctx):
         dist["time_trigger"] += any(t["time"] is not None for t in cfg["trig"].values())
         dist["trace_trigger"] += any(t["trace"] for t in cfg["trig"].values())
         dist["unknown_probe_cases"] += bool(c["unknown_probe"])
+        dist["with_-F"] += bool(cfg.get("F"))
+        dist["with_-N"] += bool(cfg.get("N"))
+        dist["with_-D"] += cfg.get("D") is not None
+        dist["filters_and_watch_and_threshold"] += bool(has_filters(cfg) and cfg["watch"] and cfg["threshold"])
+        if has_filters(cfg):
+            dist["unrecorded_frame_below_recorded (cases)"] += norecord_below_recorded(cfg, c["script"])
     nev = sum(sum(tok.startswith("V:") for tok in st) for c in cases for st in stream_of(c["impl"], c["script"]).values())
     samples = [{"env": to_env(c["cfg"]), "script": c["script"][:40], "impl_stream": stream_of(c["impl"], c["script"])}
                for c in cases[len(directed_cases()) + 5::97][:3]]
@@ -1092,6 +1313,10 @@ def run(ctx):
         "rule": "corpus + directed histories, then random configurations (read=proc/statm|page-fault, time=, trace, "
                 "-A struct-by-value stack argument of 8..1100 bytes, -R, -t, -W cpu / var:wv8|wv4|wv1 in any order) x random call "
                 "histories over 9 symbols with scripted clock (gaps 0..30 ns), page-fault/statm/cpu/variable values "
+                "changing between hooks; class `filters`: -F (1-3 functions) / -N / -D 1..4 together with -t 8|15|40, "
+                "watchpoints (always) and read / trace / time= / -A / -R triggers, mostly cygprof hooks (a frame for every "
+                "call, so frames that are not recorded lie below, between and above recorded ones and the rstack index "
+                "differs from the record depth), hooks >= 3 ns apart, values "
                 "changing between hooks, asynchronous events, 1-3 threads, -pg / cygprof / mixed hooks; every case is "
                 "run on the real libmcount and on the model in all 16 repaired/as-coded variants; distinct = distinct "
                 "(configuration, script)",
@@ -1100,6 +1325,7 @@ def run(ctx):
         "model_code_disagreements": disagreements, "monitor_failures_on_impl": monitor_fail,
         "monitor_failures_by_kind_incl_findings": mon_by,
         "spec_monitor_cases": spec_checked, "spec_monitor_failures": spec_fail,
+        "watch_iff_change_monitor_cases": watch_checked,
         "asan_runs": asan_runs, "asan_reports": asan_reports, "known_finding_hits": known_hits,
         "heap_fill_pairs": len(fcs), "heap_fill_differences": fill_diffs,
         "samples": samples, "exhaustive": False,
@@ -1138,6 +1364,8 @@ def replay(ctx, path):
         print("model %s: %s" % (dict(zip(FLAGS, combo)), "same" if c["model"][combo] == c["impl"] else
                                 json.dumps(stream_of(c["model"][combo], c["script"]))))
     bad, which = monitors(c["cfg"], c["script"], stream_of(c["impl"], c["script"]))
+    if not bad:
+        bad, which = watch_monitor(c["cfg"], c["script"], stream_of(c["impl"], c["script"]), c["impl"])
     exp = spec_stream(c["cfg"], c["script"])
     print("monitor:", which, bad)
     differs = False
